@@ -24,65 +24,60 @@ Proof.
   destruct (zlen context <=? 255) eqn:E3; [|lia]. reflexivity.
 Qed.
 
-Lemma hkdf_expand_label_partial Orc alg hl secret label context length okm :
-  digest_size alg = Some hl -> length <= 254 * hl ->
+Lemma hkdf_expand_label_full Orc alg secret label context length okm :
   hkdf_expand_label_rfc Orc alg secret label context length = Some okm ->
   HKDF_expand_label Orc secret label context length alg = Ok okm.
 Proof.
-  intros Hd HL. unfold hkdf_expand_label_rfc, HKDF_expand_label.
+  unfold hkdf_expand_label_rfc, HKDF_expand_label.
   destruct ((0 <=? length) && (length <=? 65535) && (zlen label + 6 <=? 255) && (zlen context <=? 255)) eqn:E; [|discriminate].
   intros H. rewrite hkdf_label_eq by lia. rewrite bind_ok.
-  apply (hkdf_expand_partial Orc alg secret _ length hl okm Hd HL H).
+  apply (hkdf_expand_full Orc alg secret _ length okm H).
 Qed.
 
-Lemma hkdf_expand_label_refuted_all Orc alg hl secret label context length :
-  digest_size alg = Some hl -> 254 * hl < length <= 255 * hl -> length <= 65535 ->
-  zlen label + 6 <= 255 -> zlen context <= 255 ->
-  (exists okm, hkdf_expand_label_rfc Orc alg secret label context length = Some okm) /\
-  HKDF_expand_label Orc secret label context length alg = Err ValueError.
+(* what the RFC does not define (length > 65535 or > 255*HashLen, label or context too long) is refused *)
+Lemma hkdf_expand_label_refuses Orc alg hl secret label context length :
+  digest_size alg = Some hl ->
+  hkdf_expand_label_rfc Orc alg secret label context length = None ->
+  exists e, HKDF_expand_label Orc secret label context length alg = Err e.
 Proof.
-  intros Hd HL H16 Hl Hc.
-  assert (0 < hl).
-  { unfold digest_size in Hd.
-    repeat match type of Hd with (if ?c then _ else _) = _ => destruct c; [injection Hd as <-; lia|] end. discriminate. }
-  destruct (hkdf_expand_refuted_all Orc alg secret (hkdf_label_rfc length label context) length hl Hd HL) as [[okm E1] E2].
-  split.
-  - exists okm. unfold hkdf_expand_label_rfc.
-    destruct ((0 <=? length) && (length <=? 65535) && (zlen label + 6 <=? 255) && (zlen context <=? 255)) eqn:E; [exact E1|lia].
-  - unfold HKDF_expand_label. rewrite hkdf_label_eq by lia. rewrite bind_ok. exact E2.
+  intros Hd. unfold hkdf_expand_label_rfc, HKDF_expand_label, hkdf_label_bytes.
+  change (bytes_of_string "tls13 ") with (ascii_bytes "tls13 ").
+  assert (zlen (ascii_bytes "tls13 " ++ label) = zlen label + 6) as E
+    by (rewrite zlen_app; change (zlen (ascii_bytes "tls13 ")) with 6; lia).
+  rewrite E.
+  destruct ((0 <=? length) && (length <=? 65535)) eqn:E1; cbn [andb]; [|intros _; eexists; reflexivity].
+  destruct (zlen label + 6 <=? 255) eqn:E2; cbn [andb]; [|intros _; eexists; reflexivity].
+  destruct (zlen context <=? 255) eqn:E3; [|intros _; eexists; reflexivity].
+  rewrite bind_ok. unfold hkdf_expand_rfc. rewrite Hd.
+  destruct ((0 <=? length) && (length <=? 255 * hl)) eqn:E4; [discriminate|]. intros _.
+  exists ValueError. apply (hkdf_expand_beyond Orc alg secret _ length hl Hd). lia.
 Qed.
 
-Lemma derive_secret_partial Orc alg hl secret label messages okm : hash_ok Orc ->
+Lemma derive_secret_full Orc alg hl secret label messages okm :
   digest_size alg = Some hl ->
   derive_secret_rfc Orc alg secret label messages = Some okm ->
   derive_secret Orc secret label (Some messages) alg = Ok okm /\
   (messages = [] -> derive_secret Orc secret label None alg = Ok okm).
 Proof.
-  intros HH Hd. unfold derive_secret_rfc, derive_secret, py_digest_size. rewrite Hd. intros H.
-  assert (0 < hl).
-  { unfold digest_size in Hd.
-    repeat match type of Hd with (if ?c then _ else _) = _ => destruct c; [injection Hd as <-; lia|] end. discriminate. }
+  intros Hd. unfold derive_secret_rfc, derive_secret, py_digest_size. rewrite Hd. intros H.
   split.
-  - rewrite bind_ok. apply (hkdf_expand_label_partial Orc alg hl); try assumption; lia.
-  - intros E. subst messages. rewrite bind_ok. apply (hkdf_expand_label_partial Orc alg hl); try assumption; lia.
+  - rewrite bind_ok. apply hkdf_expand_label_full. exact H.
+  - intros E. subst messages. rewrite bind_ok. apply hkdf_expand_label_full. exact H.
 Qed.
 
 (* ---- TLS 1.3 traffic keys ----------------------------------------------------------- *)
 Lemma tls13_traffic_keys_ok Orc (sha384 : bool) secret keyLen k iv :
-  keyLen <= 254 * 32 ->
   traffic_keys_rfc Orc (if sha384 then "sha384" else "sha256")%string secret keyLen = Some (k, iv) ->
   tls13_traffic_keys Orc secret keyLen sha384 = Ok (k, iv).
 Proof.
-  intros HL. unfold traffic_keys_rfc, tls13_traffic_keys.
+  unfold traffic_keys_rfc, tls13_traffic_keys.
   change (bytes_of_string "key") with (ascii_bytes "key"). change (bytes_of_string "iv") with (ascii_bytes "iv").
   set (alg := (if sha384 then "sha384" else "sha256")%string).
   destruct (hkdf_expand_label_rfc Orc alg secret (ascii_bytes "key") [] keyLen) as [k'|] eqn:E1; [|discriminate].
   destruct (hkdf_expand_label_rfc Orc alg secret (ascii_bytes "iv") [] 12) as [iv'|] eqn:E2; [|discriminate].
   intros H. injection H as -> ->.
-  assert (Hd : exists hl, digest_size alg = Some hl /\ 32 <= hl) by (unfold alg; destruct sha384; eexists; split; try reflexivity; lia).
-  destruct Hd as [hl [Hd Hhl]].
-  rewrite (hkdf_expand_label_partial Orc alg hl secret _ _ keyLen k Hd ltac:(lia) E1), bind_ok.
-  rewrite (hkdf_expand_label_partial Orc alg hl secret _ _ 12 iv Hd ltac:(lia) E2), bind_ok. reflexivity.
+  rewrite (hkdf_expand_label_full Orc alg secret _ _ keyLen k E1), bind_ok.
+  rewrite (hkdf_expand_label_full Orc alg secret _ _ 12 iv E2), bind_ok. reflexivity.
 Qed.
 
 (* ---- SSLv3 key block ------------------------------------------------------------------ *)
@@ -220,10 +215,3 @@ Proof.
     repeat match type of Hd with (if ?c then _ else _) = _ => destruct c; [injection Hd as <-; lia|] end. discriminate.
 Qed.
 
-Lemma hkdf_refuted_sha256_8160 :
-  exists Orc prk info okm,
-    hkdf_expand_rfc Orc "sha256" prk info 8160 = Some okm /\ HKDF_expand Orc prk info 8160 "sha256" = Err ValueError.
-Proof.
-  destruct (hkdf_expand_refuted_all Toy.C09_ToyOracle.toy_oracles "sha256" [1;2;3] [4;5] 8160 32 eq_refl ltac:(lia)) as [[okm E1] E2].
-  exists Toy.C09_ToyOracle.toy_oracles, [1;2;3], [4;5], okm. split; assumption.
-Qed.
